@@ -97,6 +97,17 @@ def gen_spec(rng, nlayers=None, nwn=None, ngas=None, contribs=None, emission=Fal
         new_path=rng.random() < 0.5,
         ngauss=rng.choice([1, 2, 3, 4, 6]),
     )
+    # keep the atmosphere bound: total extent (scale height x number of e-folds in pressure) well below the
+    # radius, otherwise altitudes overflow binary64 and the model is outside anything physical
+    RJ, MJ, G, kB, amu = 6.9911e7, 1.898e27, 6.674e-11, 1.380649e-23, 1.66054e-27
+    R = spec['planet_radius'] * RJ
+    efolds = math.log(pmax / pmin)
+    while True:
+        g = G * spec['planet_mass'] * MJ / R ** 2
+        H = kB * max(spec['T']) / (2.0 * amu * g)
+        if H * efolds < 0.25 * R:
+            break
+        spec['planet_mass'] *= 2.0
     return spec
 
 
